@@ -20,9 +20,9 @@ CONSTANTS
   LongVals = {}
   AllowSlow = TRUE
   DEV_NewaccNoAuth = TRUE
-  DEV_ServeUnfinished = TRUE
-  DEV_SniffPadded = TRUE
-  DEV_FinishFailLeavesBytes = TRUE
+  DEV_ServeUnfinished = FALSE
+  DEV_SniffPadded = FALSE
+  DEV_FinishFailLeavesBytes = FALSE
 INIT Init
 NEXT Next
 CHECK_DEADLOCK FALSE
